@@ -445,6 +445,36 @@ func subOverflows(a, b Integer) bool {
 //@ loop 1 invariant [C07.end] len(intp.cmapMappings.CidChars) == old(len(intp.cmapMappings.CidChars)) && (forall k :: 0 <= k && k < len(intp.cmapMappings.CidChars) ==> intp.cmapMappings.CidChars[k] == old(intp.cmapMappings.CidChars[k]))
 //@ loop 1 invariant [C07.end] forall k :: 0 <= k && k < i ==> intp.cmapChars[k].Dst == intp.Stack[base+2*k+1] && isType(intp.Stack[base+2*k], String) && ref(intp.cmapChars[k].Src) == ref(intp.Stack[base+2*k].(String)) && len(intp.cmapChars[k].Src) == len(intp.Stack[base+2*k].(String))
 
+// endcodespacerange: the pending block (two strings per entry, equal length)
+// is moved, in order and sharing the operand strings, to the end of the
+// CodeSpaceRanges table; all other tables and the earlier entries are
+// unchanged; on any error no table changes.
+//@ define csrMoved(intp) = forall k :: 0 <= k && k < old(len(intp.cmapCodeSpaceRanges)) ==>
+//@   isType(old(intp.Stack[len(intp.Stack) - 2*len(intp.cmapCodeSpaceRanges) + 2*k]), String) && isType(old(intp.Stack[len(intp.Stack) - 2*len(intp.cmapCodeSpaceRanges) + 2*k + 1]), String) &&
+//@   ref(intp.cmapMappings.CodeSpaceRanges[old(len(intp.cmapMappings.CodeSpaceRanges)) + k].Low) == ref(old(intp.Stack[len(intp.Stack) - 2*len(intp.cmapCodeSpaceRanges) + 2*k]).(String)) &&
+//@   len(intp.cmapMappings.CodeSpaceRanges[old(len(intp.cmapMappings.CodeSpaceRanges)) + k].Low) == len(old(intp.Stack[len(intp.Stack) - 2*len(intp.cmapCodeSpaceRanges) + 2*k]).(String)) &&
+//@   ref(intp.cmapMappings.CodeSpaceRanges[old(len(intp.cmapMappings.CodeSpaceRanges)) + k].High) == ref(old(intp.Stack[len(intp.Stack) - 2*len(intp.cmapCodeSpaceRanges) + 2*k + 1]).(String)) &&
+//@   len(intp.cmapMappings.CodeSpaceRanges[old(len(intp.cmapMappings.CodeSpaceRanges)) + k].High) == len(intp.cmapMappings.CodeSpaceRanges[old(len(intp.cmapMappings.CodeSpaceRanges)) + k].Low)
+//@ define csrKept(intp) = forall k :: 0 <= k && k < old(len(intp.cmapMappings.CodeSpaceRanges)) ==> intp.cmapMappings.CodeSpaceRanges[k] == old(intp.cmapMappings.CodeSpaceRanges[k])
+
+//@ func cidInit["endcodespacerange"]
+//@ ensures [C07.csr.underflow] intp.cmapMappings != nil && old(depth(intp)) < 2*old(len(intp.cmapCodeSpaceRanges)) ==> isPSErr(result, eStackunderflow)
+//@ ensures [C07.csr.error] result != nil && old(intp.cmapMappings) != nil ==> len(intp.cmapMappings.CodeSpaceRanges) == old(len(intp.cmapMappings.CodeSpaceRanges)) && depth(intp) == old(depth(intp))
+//@ ensures [C07.csr.ok] result == nil ==> depth(intp) == old(depth(intp)) - 2*old(len(intp.cmapCodeSpaceRanges)) && len(intp.cmapMappings.CodeSpaceRanges) == old(len(intp.cmapMappings.CodeSpaceRanges)) + old(len(intp.cmapCodeSpaceRanges)) && len(intp.cmapCodeSpaceRanges) == 0
+//@ ensures [C07.csr.entries] result == nil ==> csrMoved(intp)
+//@ ensures [C07.csr.kept] result == nil ==> csrKept(intp)
+//@ ensures [C07.csr.frame] old(intp.cmapMappings) != nil ==> intp.cmapMappings == old(intp.cmapMappings) && len(intp.cmapMappings.CidChars) == old(len(intp.cmapMappings.CidChars)) && len(intp.cmapMappings.BfChars) == old(len(intp.cmapMappings.BfChars)) && len(intp.cmapMappings.NotdefChars) == old(len(intp.cmapMappings.NotdefChars)) && len(intp.cmapMappings.CidRanges) == old(len(intp.cmapMappings.CidRanges)) && len(intp.cmapMappings.BfRanges) == old(len(intp.cmapMappings.BfRanges)) && len(intp.cmapMappings.NotdefRanges) == old(len(intp.cmapMappings.NotdefRanges))
+//@ loop 1 invariant [C07.csr] intp.cmapMappings == old(intp.cmapMappings) && intp.cmapMappings != nil && base == len(intp.Stack) - 2*len(intp.cmapCodeSpaceRanges) && base >= 0 && len(intp.Stack) == old(len(intp.Stack)) && len(intp.cmapCodeSpaceRanges) == old(len(intp.cmapCodeSpaceRanges)) && ref(intp.Stack) == old(ref(intp.Stack)) && off(intp.Stack) == old(off(intp.Stack)) && ref(intp.cmapCodeSpaceRanges) == old(ref(intp.cmapCodeSpaceRanges)) && off(intp.cmapCodeSpaceRanges) == old(off(intp.cmapCodeSpaceRanges))
+//@ loop 1 invariant [C07.csr] forall k :: 0 <= k && k < len(intp.Stack) ==> intp.Stack[k] == old(intp.Stack[k])
+//@ loop 1 invariant [C07.csr] len(intp.cmapMappings.CodeSpaceRanges) == old(len(intp.cmapMappings.CodeSpaceRanges)) && (forall k :: 0 <= k && k < len(intp.cmapMappings.CodeSpaceRanges) ==> intp.cmapMappings.CodeSpaceRanges[k] == old(intp.cmapMappings.CodeSpaceRanges[k]))
+//@ loop 1 invariant [C07.csr] forall k :: 0 <= k && k < i ==> isType(intp.Stack[base+2*k], String) && isType(intp.Stack[base+2*k+1], String) && ref(intp.cmapCodeSpaceRanges[k].Low) == ref(intp.Stack[base+2*k].(String)) && len(intp.cmapCodeSpaceRanges[k].Low) == len(intp.Stack[base+2*k].(String)) && ref(intp.cmapCodeSpaceRanges[k].High) == ref(intp.Stack[base+2*k+1].(String)) && len(intp.cmapCodeSpaceRanges[k].High) == len(intp.cmapCodeSpaceRanges[k].Low)
+
+// usecmap: records the name of the CMap to build on.
+//@ func cidInit["usecmap"]
+//@ ensures [C07.usecmap] intp.cmapMappings != nil && old(depth(intp)) >= 1 && isType(old(top(intp, 0)), Name) ==> result == nil && depth(intp) == old(depth(intp)) - 1 && intp.cmapMappings.UseCMap == old(top(intp, 0)).(Name) && stackFrame(intp, 1)
+//@ ensures [C07.usecmap.type] intp.cmapMappings != nil && old(depth(intp)) >= 1 && !isType(old(top(intp, 0)), Name) ==> isPSErr(result, eTypecheck) && depth(intp) == old(depth(intp))
+//@ ensures [C07.usecmap.outside] old(intp.cmapMappings) == nil ==> isPSErr(result, eUndefined)
+
 //@ define BfCharsMoved(intp) = forall k :: 0 <= k && k < old(len(intp.cmapChars)) ==>
 //@   intp.cmapMappings.BfChars[old(len(intp.cmapMappings.BfChars)) + k].Dst == old(intp.Stack[len(intp.Stack) - 2*len(intp.cmapChars) + 2*k + 1]) &&
 //@   isType(old(intp.Stack[len(intp.Stack) - 2*len(intp.cmapChars) + 2*k]), String) &&
